@@ -132,6 +132,9 @@ class Machine:
                         if sig == consts.AppSignal.start and c.state[i] == AppState.wait: c.state[i] = AppState.run
                         if sig == consts.AppSignal.stop: c.state[i] = AppState.idle; c.image[i] = None; c.app[i] = 0
             return (0, 0, 0, b"")
+        if cmd == C.fill:
+            for i in range(a3): ch.mem[a1 + i] = (a2 >> (8 * (i % 4))) & 0xff
+            return (0, 0, 0, b"")
         raise NotImplementedError(cmd)
 
 class FakeConn:
